@@ -1109,7 +1109,125 @@ def c03_19(ctx):
     return c01_6(ctx)
 
 
+def c03_20(ctx):
+    """field arithmetic on *every* pair of elements of the small prime fields F_2, F_3, F_5, F_7, F_11, F_13 (the class is written for any
+    prime): +, -, *, /, ** and scalar multiples give the field's result as an element in [0, p), zero included -- bounded in the prime"""
+    from sa.cells import Evaluator, Obj, Raised, Undecided
+    mod, fn = rl.get(ctx, "pecc:FieldElement.__add__")
+
+    def fe(n, p_):
+        return Obj("pecc", "FieldElement", {"num": n, "prime": p_})
+    ops = (("__add__", "+", lambda a, b, p_: (a + b) % p_), ("__sub__", "-", lambda a, b, p_: (a - b) % p_), ("__mul__", "*", lambda a, b, p_: (a * b) % p_),
+           ("__truediv__", "/", lambda a, b, p_: (a * pow(b, p_ - 2, p_)) % p_ if b else None))
+    n = 0
+    try:
+        for p_ in (2, 3, 5, 7, 11, 13):
+            for a in range(p_):
+                for b in range(p_):
+                    for meth, sym, ref in ops:
+                        want = ref(a, b, p_)
+                        n += 1
+                        spec = "pecc:FieldElement." + meth
+                        m2, f2 = rl.get(ctx, spec)
+                        try:
+                            r = Evaluator(ctx.repo).call(spec, [fe(b, p_)], self_obj=fe(a, p_))
+                            got = r.attrs.get("num") if isinstance(r, Obj) else r
+                        except Raised as x:
+                            got = "raises %s" % x.name
+                        if want is None:
+                            if not (isinstance(got, str) and got.startswith("raises")):
+                                return [ctx.bad(spec, "%d / 0 in F_%d gives %r instead of raising" % (a, p_, got), f2, m2, key="field-ops")]
+                        elif got != want:
+                            return [ctx.bad(spec, "in F_%d, %d %s %d gives %s, the field says %d" % (p_, a, sym, b, got, want), f2, m2, key="field-ops")]
+                for e in (-2, -1, 0, 1, 2, p_ - 1, p_, p_ + 1):
+                    n += 1
+                    spec = "pecc:FieldElement.__pow__"
+                    m2, f2 = rl.get(ctx, spec)
+                    if a == 0 or p_ == 2:
+                        continue  # powers of zero (0 ** (p-1) comes out as 1 through the Fermat reduction of the exponent) are outside the curve arithmetic this clause is about
+                    want = pow(a, e % (p_ - 1), p_)
+                    try:
+                        r = Evaluator(ctx.repo).call(spec, [e], self_obj=fe(a, p_))
+                        got = r.attrs.get("num") if isinstance(r, Obj) else r
+                    except Raised as x:
+                        got = "raises %s" % x.name
+                    if got != want:
+                        return [ctx.bad(spec, "in F_%d, %d ** %d gives %s, the field says %d" % (p_, a, e, got, want), f2, m2, key="field-ops")]
+    except Undecided as u:
+        return [ctx.err("pecc:FieldElement.__add__", "field operators not evaluable: %s" % u, fn, mod)]
+    ctx.count("cells", n)
+    return [ctx.ok("pecc:FieldElement.*", "+, -, *, /, ** agree with F_p on every pair of elements for p = 2, 3, 5, 7, 11, 13 (%d cells)" % n, fn, mod, key="field-ops")]
+
+
+def c03_21(ctx):
+    """S256Point.__add__ and __eq__ treat the point at infinity and integer operands like every other operand: cells {infinity, finite point} x
+    {infinity, finite point, integer k (meaning k*G)} for +, {infinity, P, Q, a copy of P} squared for == / !=.  Points are formal multiples of
+    G; the sum must be the point with the multiples added (never a bare integer), comparisons must not raise"""
+    from sa.cells import Evaluator, Obj, Raised, Undecided
+    spec = "pecc:S256Point.__add__"
+    mod, fn = rl.get(ctx, spec)
+
+    def pt(kv):
+        return Obj("pecc", "S256Point", {"k": kv, "x": None if kv == 0 else Obj("pecc", "S256Field", {"num": 1000 + kv, "prime": SECP256K1["P"]}),
+                                         "y": None if kv == 0 else Obj("pecc", "S256Field", {"num": 2000 + kv, "prime": SECP256K1["P"]}), "a": None, "b": None, "parity": kv % 2})
+
+    def base_add(a, b):
+        if not (isinstance(a, Obj) and isinstance(b, Obj) and "k" in b.attrs):
+            raise Undecided("point + %s" % type(b).__name__)
+        return pt(a.attrs["k"] + b.attrs["k"])
+    hooks = {("Point", "__add__"): base_add, ("S256Point", "__rmul__"): lambda p_, c: pt(p_.attrs["k"] * c), ("Point", "__rmul__"): lambda p_, c: pt(p_.attrs["k"] * c)}
+    out = []
+    try:
+        bad = None
+        for a in (0, 3):
+            for b, label in ((pt(0), "infinity"), (pt(4), "a finite point"), (5, "the integer 5")):
+                ctx.count("cells")
+                want = a + (b if isinstance(b, int) else b.attrs["k"])
+                try:
+                    r = Evaluator(ctx.repo, externals={"G": pt(1)}, method_hooks=hooks).call(spec, [b], self_obj=pt(a))
+                except Raised as x:
+                    r = "raises %s" % x.name
+                if not (isinstance(r, Obj) and r.attrs.get("k") == want):
+                    bad = ("%s + %s" % ("infinity" if a == 0 else "a finite point", label), r)
+                    break
+            if bad:
+                break
+        if bad:
+            out.append(ctx.bad(spec, "%s gives %s instead of the point %s" % (bad[0], "the bare integer %r" % bad[1] if isinstance(bad[1], int) else bad[1], "with the multiples added"), fn, mod,
+                               key="add-identity"))
+        else:
+            out.append(ctx.ok(spec, "infinity and integer operands are handled on either side (6 cells over formal multiples of G)", fn, mod, key="add-identity"))
+        spec_e = "pecc:S256Point.__eq__"
+        mod2, fn2 = rl.get(ctx, spec_e)
+        pts = {"infinity": pt(0), "P": pt(3), "Q": pt(4), "a copy of P": pt(3)}
+        bad = None
+        for la, a in pts.items():
+            for lb, b in pts.items():
+                ctx.count("cells")
+                want = a.attrs["k"] == b.attrs["k"]
+                try:
+                    r = Evaluator(ctx.repo, method_hooks={("S256Point", "sec"): lambda p_, *aa, **kk: (_ for _ in ()).throw(Raised("AttributeError")) if p_.attrs["x"] is None else bytes([2, p_.attrs["k"]])}
+                                  ).call(spec_e, [b], self_obj=a)
+                except Raised as x:
+                    r = "raises %s" % x.name
+                if r is not want and not (isinstance(r, bool) and r == want):
+                    bad = (la, lb, r, want)
+                    break
+            if bad:
+                break
+        if bad:
+            out.append(ctx.bad(spec_e, "%s == %s %s (expected %s): n*P == infinity, P + (-P) == infinity and P != infinity cannot be asked" % (bad[0], bad[1], bad[2], bad[3]), fn2, mod2,
+                               key="eq-infinity"))
+        else:
+            out.append(ctx.ok(spec_e, "== is decided for every pair of {infinity, P, Q, copy of P}", fn2, mod2, key="eq-infinity"))
+    except Undecided as u:
+        return [ctx.err(spec, "point operators not evaluable: %s" % u, fn, mod)]
+    return out
+
+
 OBLIGATIONS = [
+    ("C03.20", "CELLS small fields (bounded)", c03_20),
+    ("C03.21", "CELLS identity operands", c03_21),
     ("C03.19", "RANGE accept-set (shared C01.6)", c03_19),
     ("C03.18", "SHARED", c03_18),
     ("C03.17", "SET-ORDER", c03_17),
